@@ -9,6 +9,7 @@ Decided statically (abstract interpretation of MIR; nothing is run):
                                 operator-level flip of (CmpOperator, bool) and the named-rule clause table
   R-C03-duality                 table algebra: flipping Success/Fail of the C13 tables gives `not X > v == X <= v` etc.
 """
+import re
 from engine import ai, mirlib as M
 from engine import statusmon as S
 from engine.statusmon import Mon
@@ -632,6 +633,73 @@ def named(ctx, cr):
         ctx.ob("R-C03-flip-tables", o.key.replace("R-C02-combinators", "R-C03-flip-tables:named-rule"), o.ok, o.detail, file=o.file, line=o.line, sample=o.sample)
 
 
+def reverse_diff_side(ctx, cr):
+    """Negating a failed query-vs-query comparison recomputes the difference list and the clause PASSes iff that list is empty, so it
+    must be taken over the side the producer took the difference over: `in` always collects left-hand values that are not contained
+    (In operation: diff.push(eachl)), `==` collects from the left when lhs.len() > rhs.len() and from the right otherwise.  Decided as
+    a table over (operator, rhs.len() >= lhs.len()) -> the QueryIn field handed to reverse_diff."""
+    rule = "R-C03-flip-tables"
+    k = "<(rules::values::CmpOperator,bool) as rules::eval::operators::Comparator>::compare::{closure#0}"
+    f = cr.fns.get(k)
+    CO = "rules::values::CmpOperator"
+    QI = "rules::eval::operators::QueryIn"
+    if not f or QI not in cr.adts or "rules::eval::operators::reverse_diff" not in cr.fns:
+        ctx.lost(rule, rule + ":reverse-diff-side", "negation wrapper closure / QueryIn / reverse_diff")
+        return
+    ops = [v["name"] for v in cr.adts[CO]["variants"]]
+    qf = [x["name"] for x in cr.adts[QI]["variants"][0]["fields"]]
+    upn = {n: pl for n, pl in f["names"] if not isinstance(pl, int)}
+    order = {}
+    for n in ("rhs", "lhs", "self"):
+        pl = upn.get(n)
+        if pl is None and n == "self":
+            continue       # the closure does not look at the operator at all: the table below shows the consequence
+        if pl is None:
+            ctx.lost(rule, rule + ":reverse-diff-side", "captured variable %s of the negation closure" % n)
+            return
+        order[[pr for pr in M.place_projs(pl) if isinstance(pr, list) and pr[0] == "f"][0][1]] = n
+    for op in ("Eq", "In"):
+        got = set()
+
+        class H(ai.Hooks):
+            def constrained(self, a, st, sid, val):
+                m = re.match(r"\(LEN\((\w+)\*?\) (\w+) LEN\((\w+)\*?\)\)(!?)$", sid)
+                if m and val[0] == "bool":
+                    l, o, r, neg = m.groups()
+                    truth = val[1] != (neg == "!")
+                    rel = {("RHS", "Ge", "LHS"): truth, ("LHS", "Le", "RHS"): truth, ("LHS", "Gt", "RHS"): not truth, ("RHS", "Lt", "LHS"): not truth}.get((l, o, r), "unrecognised:" + sid)
+                    st.mon = (st.mon or Mon()).set(ge=rel)
+
+            def call(self, a, st, term, callee, args):
+                if callee.get("key") == "rules::eval::operators::reverse_diff":
+                    v = a.resolve(st, args[1])
+                    side = None
+                    if v[0] == "ref":
+                        fl = [pr for pr in v[2] if pr[0] == "f"]
+                        side = qf[fl[-1][1]] if fl else None
+                    got.add(((st.mon or Mon()).get("ge"), side))
+                    return [(("sym", "RD"), st.mon)]
+                return None
+        a = ai.AI(cr, H())
+        up = {"rhs": ("ref", ("X", "RHSREF"), ()), "lhs": ("ref", ("X", "LHSREF"), ()), "self": ("ref", ("X", "SELFREF"), ())}
+        env = ("closure", k, tuple(up[order[i]] for i in sorted(order)))
+        ext = {"SELF": ("tuple", (("enum", CO, ops.index(op), ()), ("bool", True))), "SELFREF": ("ref", ("X", "SELF"), ()), "RHSREF": ("sym", "RHS"), "LHSREF": ("sym", "LHS"), "ENV": env}
+        try:
+            a.run(k, args=[("ref", ("X", "ENV"), ()), None], mon=Mon(), ext=ext)
+        except ai.Undecided as e:
+            ctx.ob(rule, "%s:reverse-diff-side:%s" % (rule, op), False, "undecided %s" % e, fn=f)
+            continue
+        ctx.states += a.n_states
+        if op == "In":
+            want_desc = "always the left-hand values"
+            ok = bool(got) and all(side == "lhs" for ge, side in got)
+        else:
+            want_desc = "the right-hand values iff rhs.len() >= lhs.len(), else the left-hand values"
+            ok = got == {(True, "rhs"), (False, "lhs")}
+        ctx.ob(rule, "%s:reverse-diff-side:%s" % (rule, op), ok, "negated %s recomputes the difference over %s; expected %s (the side its producer collects the difference from)" % (
+            op, sorted(("rhs>=lhs:%s" % g, s_) for g, s_ in got), want_desc), fn=f, sample={"operator": op, "table": sorted(map(str, got))})
+
+
 def run(ctx):
     cr = ctx.lib
     negation_flows(ctx, cr)
@@ -644,7 +712,8 @@ def run(ctx):
     empty_special_case(ctx, cr)
     named(ctx, cr)
     duality(ctx, cr)
+    reverse_diff_side(ctx, cr)
     ctx.assumptions += [
-        "the recomputed `diff` of negated list comparisons (QueryIn / ListIn) depends on run-time lists and is not claimed",
+        "the content of the recomputed `diff` of negated list comparisons depends on run-time lists and is not claimed; decided is which side it is taken over",
         "nom's opt() returns Some exactly when the inner parser matched (dependency behaviour)",
     ]
